@@ -2,10 +2,11 @@ import Chewing.Model.TrieWalk
 import Chewing.Proofs.Returns
 import Chewing.Proofs.TrieShape
 import Chewing.Proofs.WalkLookup
+import Chewing.Proofs.SyllableValid
 /-!
 `Trie::entries()` over an arbitrary index table (`Model/TrieWalk.lean`, the tick machine):
 
-* `tick_inv`      under `NoZeroChild` every loop iteration returns (no panic) and keeps the invariant;
+* `tick_inv`      under `NoZeroChild` and `ValidSyls` every loop iteration returns (no panic) and keeps the invariant;
 * `tick_phi`      for every weight function `W : Weights t` every iteration decreases a potential, so the
                   walk finishes within `phi init = 8·W.w 0 + 2` iterations.
 
@@ -32,7 +33,7 @@ def descendNF (t : Tbl P) (st : ESt P) : Outcome (ESt P) :=
   let lf := t.get nd.a
   if lf.s == 0 then
     if oob lf.a (lf.a + lf.b) t.dataLen then .ok st.finish
-    else if st.syls.any (· == 0) then .panic "trie:zero-syllable-unwrap"
+    else if st.syls.any (fun s => !validCode s) then .panic "trie:invalid-syllable-unwrap"
     else if nd.a + 1 < nd.a + nd.b then
       .ok { st with results := (st.syls.reverse, t.leaf lf.a (lf.a + lf.b)) :: st.results,
                     node := nd.a + 1, syls := (t.get (nd.a + 1)).s :: st.syls,
@@ -78,19 +79,22 @@ theorem tick_descend_oob (t : Tbl P) (st : ESt P) (h : st.phase = .descend)
 
 /-! ### the invariant that excludes the two panic sites of `entries()` -/
 
+/-- every syllable on the syllable stack, and every syllable a pending child iterator will still yield, is a value
+    `Syllable::try_from` accepts (`validCode`, in particular not zero) -/
 structure EInv (t : Tbl P) (st : ESt P) : Prop where
-  syls : ∀ s ∈ st.syls, s ≠ 0
-  frames : ∀ f ∈ st.stack, f.cur ≤ f.end_ ∧ f.end_ ≤ t.n ∧ ∀ j, f.cur ≤ j → j < f.end_ → (t.get j).s ≠ 0
+  syls : ∀ s ∈ st.syls, validCode s = true
+  frames : ∀ f ∈ st.stack, f.cur ≤ f.end_ ∧ f.end_ ≤ t.n ∧ ∀ j, f.cur ≤ j → j < f.end_ → validCode (t.get j).s = true
   node : st.node < t.n ∧ NodeIsh t st.node
 
-theorem any_zero_false {l : List Nat} (h : ∀ s ∈ l, s ≠ 0) : (l.any (· == 0)) = false := by
+theorem any_invalid_false {l : List Nat} (h : ∀ s ∈ l, validCode s = true) : (l.any (fun s => !validCode s)) = false := by
   rw [Bool.eq_false_iff]
   intro hc
   obtain ⟨s, hs, hz⟩ := List.any_eq_true.mp hc
-  exact h s hs (by simpa using hz)
+  rw [h s hs] at hz
+  cases hz
 
-/-- under `NoZeroChild`, one loop iteration returns and keeps the invariant -/
-theorem tick_inv {t : Tbl P} (hz : NoZeroChild t) {st : ESt P} (hi : EInv t st) :
+/-- under `NoZeroChild` and `ValidSyls`, one loop iteration returns and keeps the invariant -/
+theorem tick_inv {t : Tbl P} (hz : NoZeroChild t) (hvs : ValidSyls t) {st : ESt P} (hi : EInv t st) :
     ∃ st', tick t st = .ok st' ∧ EInv t st' := by
   cases hph : st.phase with
   | finished =>
@@ -119,17 +123,18 @@ theorem tick_inv {t : Tbl P} (hz : NoZeroChild t) {st : ESt P} (hi : EInv t st) 
       exact ⟨_, rfl, ⟨hi.syls, (by intro f hf; rw [hs] at hf; cases hf), hi.node⟩⟩
     · rename_i f rest hs
       have hf := hi.frames f (by rw [hs]; exact List.mem_cons_self)
-      have hrest : ∀ g ∈ rest, g.cur ≤ g.end_ ∧ g.end_ ≤ t.n ∧ ∀ j, g.cur ≤ j → j < g.end_ → (t.get j).s ≠ 0 :=
+      have hrest : ∀ g ∈ rest, g.cur ≤ g.end_ ∧ g.end_ ≤ t.n ∧ ∀ j, g.cur ≤ j → j < g.end_ → validCode (t.get j).s = true :=
         fun g hg => hi.frames g (by rw [hs]; exact List.mem_cons_of_mem _ hg)
-      have htail : ∀ s ∈ st.syls.tail, s ≠ 0 := fun s hs' => hi.syls s (List.mem_of_mem_tail hs')
+      have htail : ∀ s ∈ st.syls.tail, validCode s = true := fun s hs' => hi.syls s (List.mem_of_mem_tail hs')
       by_cases hlt : f.cur < f.end_
-      · have hnz : (t.get f.cur).s ≠ 0 := hf.2.2 f.cur (Nat.le_refl _) hlt
+      · have hvc : validCode (t.get f.cur).s = true := hf.2.2 f.cur (Nat.le_refl _) hlt
+        have hnz : (t.get f.cur).s ≠ 0 := validCode_ne_zero hvc
         have hnz' : ((t.get f.cur).s == 0) = false := by simpa using hnz
         simp only [Frame.next, hlt, if_true, hnz', Bool.false_eq_true, if_false]
         refine ⟨_, rfl, ⟨?_, ?_, ?_⟩⟩
         · intro s hs'
           rcases List.mem_cons.mp hs' with rfl | h'
-          · exact hnz
+          · exact hvc
           · exact htail s h'
         · intro g hg
           rcases List.mem_cons.mp hg with rfl | h'
@@ -148,12 +153,15 @@ theorem tick_inv {t : Tbl P} (hz : NoZeroChild t) {st : ESt P} (hi : EInv t st) 
       have hr := oob_false hin
       have hir : InRange t st.node := inRange_of_oob hin
       have hkids := hz st.node hi.node.1 hi.node.2 hir
+      have hval := hvs st.node hi.node.1 hi.node.2 hir
+      have hkv : ∀ j, (t.get st.node).a < j → j < (t.get st.node).a + (t.get st.node).b → validCode (t.get j).s = true :=
+        fun j h1 h2 => hval j (by omega) h2 (hkids j h1 h2)
       unfold descendNF
       dsimp only
       split
       · split
         · exact ⟨_, rfl, ⟨hi.syls, hi.frames, hi.node⟩⟩
-        · rw [any_zero_false hi.syls]
+        · rw [any_invalid_false hi.syls]
           simp only [Bool.false_eq_true, if_false]
           split
           · rename_i hsec
@@ -161,11 +169,11 @@ theorem tick_inv {t : Tbl P} (hz : NoZeroChild t) {st : ESt P} (hi : EInv t st) 
             refine ⟨_, rfl, ⟨?_, ?_, ?_⟩⟩
             · intro s hs'
               rcases List.mem_cons.mp hs' with rfl | h'
-              · exact hnz
+              · exact hkv _ (by omega) (by omega)
               · exact hi.syls s h'
             · intro g hg
               rcases List.mem_cons.mp hg with rfl | h'
-              · exact ⟨by somega, hr.2, fun j h1 h2 => hkids j (by somega) h2⟩
+              · exact ⟨by somega, hr.2, fun j h1 h2 => hkv j (by somega) h2⟩
               · exact hi.frames g h'
             · exact ⟨by somega, Or.inr hnz⟩
           · exact ⟨_, rfl, ⟨hi.syls, hi.frames, hi.node⟩⟩
@@ -174,16 +182,16 @@ theorem tick_inv {t : Tbl P} (hz : NoZeroChild t) {st : ESt P} (hi : EInv t st) 
         refine ⟨_, rfl, ⟨?_, ?_, ?_⟩⟩
         · intro s hs'
           rcases List.mem_cons.mp hs' with rfl | h'
-          · exact hnz
+          · exact hval _ (Nat.le_refl _) (by omega) hnz
           · exact hi.syls s h'
         · intro g hg
           rcases List.mem_cons.mp hg with rfl | h'
-          · exact ⟨by somega, hr.2, fun j h1 h2 => hkids j (by somega) h2⟩
+          · exact ⟨by somega, hr.2, fun j h1 h2 => hkv j (by somega) h2⟩
           · exact hi.frames g h'
         · exact ⟨by somega, Or.inr hnz⟩
 
-/-- the run never panics under `NoZeroChild`: it returns or runs out of the given fuel -/
-theorem run_no_panic {t : Tbl P} (hz : NoZeroChild t) :
+/-- the run never panics under `NoZeroChild` and `ValidSyls`: it returns or runs out of the given fuel -/
+theorem run_no_panic {t : Tbl P} (hz : NoZeroChild t) (hvs : ValidSyls t) :
     ∀ (fuel : Nat) (st : ESt P), EInv t st → (∃ st', run t fuel st = .ok st') ∨ run t fuel st = .outOfFuel
   | 0, st, _ => by
     unfold run
@@ -194,9 +202,9 @@ theorem run_no_panic {t : Tbl P} (hz : NoZeroChild t) :
     unfold run
     split
     · exact Or.inl ⟨_, rfl⟩
-    · obtain ⟨st', h', hi'⟩ := tick_inv hz hi
+    · obtain ⟨st', h', hi'⟩ := tick_inv hz hvs hi
       rw [h']
-      exact run_no_panic hz fuel st' hi'
+      exact run_no_panic hz hvs fuel st' hi'
 
 theorem entriesInit_inv {t : Tbl P} {st : ESt P} (h : entriesInit t = some st) : EInv t st := by
   unfold entriesInit at h
@@ -304,7 +312,7 @@ theorem tick_phi {t : Tbl P} (W : Weights t) (_hz : NoZeroChild t) {st st' : ESt
     · rename_i f rest hs
       have hf := hi.frames f (by rw [hs]; exact List.mem_cons_self)
       by_cases hlt : f.cur < f.end_
-      · have hnz : (t.get f.cur).s ≠ 0 := hf.2.2 f.cur (Nat.le_refl _) hlt
+      · have hnz : (t.get f.cur).s ≠ 0 := validCode_ne_zero (hf.2.2 f.cur (Nat.le_refl _) hlt)
         have hnz' : ((t.get f.cur).s == 0) = false := by simpa using hnz
         simp only [Frame.next, hlt, if_true, hnz', Bool.false_eq_true, if_false, Outcome.ok.injEq] at ht
         subst ht
@@ -345,7 +353,7 @@ theorem tick_phi {t : Tbl P} (W : Weights t) (_hz : NoZeroChild t) {st st' : ESt
           subst ht
           simp only [phi, ESt.finish, hph, reduceCtorEq, if_true, if_false, rank]
           omega
-        · rw [any_zero_false hi.syls] at ht
+        · rw [any_invalid_false hi.syls] at ht
           simp only [Bool.false_eq_true, if_false] at ht
           split at ht
           · rename_i hsec
@@ -389,7 +397,7 @@ theorem phi_pos {t : Tbl P} (W : Weights t) {st : ESt P} (h : st.phase ≠ .fini
   | _ => simp only [rank]; omega
 
 /-- with `phi` iterations of fuel the walk finishes -/
-theorem run_terminates {t : Tbl P} (W : Weights t) (hz : NoZeroChild t) :
+theorem run_terminates {t : Tbl P} (W : Weights t) (hz : NoZeroChild t) (hvs : ValidSyls t) :
     ∀ (fuel : Nat) (st : ESt P), EInv t st → phi W st ≤ fuel → ∃ st', run t fuel st = .ok st'
   | 0, st, _, hle => by
     unfold run
@@ -405,10 +413,10 @@ theorem run_terminates {t : Tbl P} (W : Weights t) (hz : NoZeroChild t) :
     · exact ⟨_, rfl⟩
     · rename_i hne
       have hnf : st.phase ≠ .finished := phase_ne_of_beq hne
-      obtain ⟨st', h', hi'⟩ := tick_inv hz hi
+      obtain ⟨st', h', hi'⟩ := tick_inv hz hvs hi
       have hlt := tick_phi W hz hi hnf h'
       rw [h']
-      exact run_terminates W hz fuel st' hi' (by omega)
+      exact run_terminates W hz hvs fuel st' hi' (by omega)
 
 theorem phi_init {t : Tbl P} (W : Weights t) {st : ESt P} (h : entriesInit t = some st) : phi W st = 8 * W.w 0 + 2 := by
   unfold entriesInit at h
@@ -421,28 +429,28 @@ theorem phi_init {t : Tbl P} (W : Weights t) {st : ESt P} (h : entriesInit t = s
       subst h
       simp [phi, nodeW, stackW, rank]
 
-/-- `entries()` over a table with weights `W` and `NoZeroChild` returns within `8·W.w 0 + 2` loop
+/-- `entries()` over a table with weights `W`, `NoZeroChild` and `ValidSyls` returns within `8·W.w 0 + 2` loop
     iterations -/
-theorem entriesFuel_returns {t : Tbl P} (W : Weights t) (hz : NoZeroChild t) (fuel : Nat)
+theorem entriesFuel_returns {t : Tbl P} (W : Weights t) (hz : NoZeroChild t) (hvs : ValidSyls t) (fuel : Nat)
     (hfuel : 8 * W.w 0 + 2 ≤ fuel) : Returns (entriesFuel t fuel) := by
   unfold entriesFuel
   cases hinit : entriesInit t with
   | none => exact ⟨_, rfl⟩
   | some st =>
     dsimp only
-    obtain ⟨st', h'⟩ := run_terminates W hz fuel st (entriesInit_inv hinit) (by rw [phi_init W hinit]; exact hfuel)
+    obtain ⟨st', h'⟩ := run_terminates W hz hvs fuel st (entriesInit_inv hinit) (by rw [phi_init W hinit]; exact hfuel)
     rw [h']
     exact ⟨_, rfl⟩
 
-/-- `entries()` over a table with `NoZeroChild` never panics, whatever the fuel -/
-theorem entriesFuel_no_panic {t : Tbl P} (hz : NoZeroChild t) (fuel : Nat) (s : String) :
+/-- `entries()` over a table with `NoZeroChild` and `ValidSyls` never panics, whatever the fuel -/
+theorem entriesFuel_no_panic {t : Tbl P} (hz : NoZeroChild t) (hvs : ValidSyls t) (fuel : Nat) (s : String) :
     entriesFuel t fuel ≠ .panic s := by
   unfold entriesFuel
   cases hinit : entriesInit t with
   | none => intro h; cases h
   | some st =>
     dsimp only
-    rcases run_no_panic hz fuel st (entriesInit_inv hinit) with ⟨st', h'⟩ | h'
+    rcases run_no_panic hz hvs fuel st (entriesInit_inv hinit) with ⟨st', h'⟩ | h'
     · rw [h']; intro h; cases h
     · rw [h']; intro h; cases h
 
